@@ -153,14 +153,79 @@ func (ex *Exec) funcValueKey(st *State, v ssa.Value) string {
 		}
 	case *ssa.FreeVar:
 		return "freevar:" + funcKey(x.Parent()) + "." + x.Name()
+	case *ssa.Extract:
+		if c, ok := x.Tuple.(*ssa.Call); ok {
+			if f := c.Common().StaticCallee(); f != nil {
+				return fmt.Sprintf("resultof:%s#%d", funcKey(f), x.Index)
+			}
+		}
 	}
 	return "dynamic:" + v.Name()
+}
+
+// interfere applies the caller's rely condition before a call to key.
+func (ex *Exec) interfere(st *State, key string) {
+	if len(st.frames) == 0 {
+		return
+	}
+	fr := st.top()
+	cf := ex.eng.contractFor(fr.fn)
+	if cf == nil {
+		return
+	}
+	for _, in := range cf.Interference {
+		hit := false
+		for _, a := range in.At {
+			if callMatches(a, key) {
+				hit = true
+			}
+		}
+		if !hit {
+			continue
+		}
+		ex.note("A-rely: between the calls of " + funcShort(fr.fn) + " other goroutines may run " + strings.Join(in.Writers, ", ") + "; assumed afterwards: " + in.Assume.Src)
+		before := st.clone()
+		ws := map[string]*Sort{}
+		for _, w := range in.Writers {
+			found := false
+			for k, fns := range ex.eng.funcs {
+				if callMatches(w, k) {
+					for _, f := range fns {
+						found = true
+						for n, s := range ex.eng.cachedWrites(f) {
+							ws[n] = s
+						}
+					}
+				}
+			}
+			if !found {
+				ex.fail("interference: unknown writer %s", w)
+			}
+		}
+		names := make([]string, 0, len(ws))
+		for n := range ws {
+			names = append(names, n)
+		}
+		sort.Strings(names)
+		for _, n := range names {
+			arrSorts[n] = ws[n]
+			ex.havocArr(st, n)
+		}
+		ex.bumpAlloc(st)
+		if !ex.collect {
+			env := ex.envFor(st, fr, nil)
+			env.old = before
+			ex.bindOwnParams(env, fr)
+			st.assume(ex.evalWith(env, in.Assume))
+		}
+	}
 }
 
 func (ex *Exec) callFunc(st *State, f *ssa.Function, args []*Val, binds []*Val, site ssa.Instruction, ctx *callCtx) []cont {
 	key := funcKey(f)
 	ctx.key = key
 	ctx.args = args
+	ex.interfere(st, key)
 	if nat, ok := natives[key]; ok {
 		return nat(ctx)
 	}
